@@ -85,7 +85,8 @@ Theorem C02_unseeded_equals_zero_seed :
 Proof. exact (@unseeded_module_zero_seed). Qed.
 Print Assumptions C02_unseeded_equals_zero_seed.
 
-(* nested networks respond and backpropagate like the flat module list *)
+(* nested networks (with any print_timing option on any level: node carries it) respond and backpropagate like the
+   flat module list *)
 Theorem C02_nested_flatten_response :
   forall (K : Type) (NK : Num K) (n : node K) (t : tenv K), fwd_node n t = fwd (flatten n) t.
 Proof. exact (@fwd_node_flatten). Qed.
@@ -96,6 +97,16 @@ Theorem C02_nested_flatten_sensitivity :
     bwd_node dims n c = bwd dims (flatten n) c.
 Proof. exact (@bwd_node_flatten). Qed.
 Print Assumptions C02_nested_flatten_sensitivity.
+
+(* the construction option print_timing (False / True / a threshold in seconds) of the outer and of every inner
+   Network selects between two differently written loops of Network.response / Network.sensitivity (members called
+   through self.timefn or directly); whatever the options are, the network computes the same states and leaves the
+   same sensitivities (so the two theorems above and the main theorem hold for every choice of options) *)
+Theorem C02_print_timing_option_irrelevant :
+  forall (K : Type) (NK : Num K) (dims : nat -> nat) (f : timing -> timing) (n : node K) (t : tenv K) (c : cenv K),
+    fwd_node (retime f n) t = fwd_node n t /\ bwd_node dims (retime f n) c = bwd_node dims n c.
+Proof. exact (fun K NK dims f n t c => conj (@retime_response K NK f n t) (@retime_sensitivity K NK dims f n c)). Qed.
+Print Assumptions C02_print_timing_option_irrelevant.
 
 (* the module hypothesis is not vacuous: every dimensionally consistent block-matrix module (response y_o += M x_i,
    sensitivity g_i += M^T w_o, None returned for inputs it does not depend on) is a shape-correct adjoint pair *)
@@ -141,7 +152,8 @@ Print Assumptions C02_slice_of_copying_slice_refuted.
 (* ---- non-vacuity: a 5-module diamond (corpus/C02/diamond.json runs the same network on the implementation).
    signals: 0 = x (3, source), 1 = p (2, source), 2 = a = A x[[0,2]] (slice), 3 = b = B x + P p (fan-out of x),
    4 = d = D1 a + D2 b (fan-in), 5 = e = E1 a + E2 a (signal used twice), 6, 7 = f, g = F d, G d (two outputs,
-   only f seeded: partial seed); nesting Network(Network(m1, m2), m3, Network(m4, m5)). *)
+   only f seeded: partial seed); nesting Network(Network(m1, m2, print_timing=True), m3,
+   Network(m4, m5, print_timing=10.0)). *)
 Example C02_diamond_nonvacuous :
   net_ok 8 (dims_of diamond_dims) diamond = true /\
   wt_cot (dims_of diamond_dims) (cenv_of diamond_seeds) /\
